@@ -15,12 +15,17 @@ MANIFEST = dict(
          "ownership => no conflicting accesses on state cells, for every access trace; (3) an interleaving model of producers, "
          "timer callbacks, receiver, Stop and the loop over bounded FIFO channels (capacities from T-gen): no execution sends on "
          "a closed channel, what the loop processed plus what is queued is a permutation of what was handed over (exactly once "
-         "at quiescence), after the loop stopped every producer's select can complete. Validation and failing-schedule search: "
+         "at quiescence), after the loop stopped every producer's select can complete; (4) shutdown composition (event loop, Stop, "
+         "the driver Close that follows it, the periodic server's CLOSE handling, ticker goroutines; protocol parameters read off "
+         "the generated tables): for any number of tickers and every schedule nobody sends on the closed event channel and the "
+         "periodic server is never stuck in stopTicker; each protocol element is shown necessary by a failing schedule. "
+         "Validation and failing-schedule search: "
          "race-detector stress (vharness built with -race): 3 SMFs with duplicates, 4 report producers, 5 ms transaction timers, "
          "unanswered requests, Stop at a random point - race reports, panics, fatal exit, wait-group completion, exactly-once "
          "delivery of uniquely tagged reports.",
-    note="Partial: scheduler / memory model / timers are runtime behaviour; the driver-side goroutines (perio server, netlink "
-         "listener) are covered by C15/C18 material, not here. ",
+    note="Partial: scheduler / memory model / timers are runtime behaviour. Half of the stress schedules include the real "
+         "periodic-report server (millisecond tickers, registration churn, driver Close right after Stop as pkg/app does); the "
+         "netlink listener goroutine is exercised by the full-stack modes of C13/C18, not under the race detector. ",
     technique="Coq: generated confinement table + interleaving model proofs; Go race detector stress as validation / search",
     design="4/C17")
 
